@@ -52,14 +52,15 @@ type envOpts struct {
 }
 
 type env struct {
-	Cluster *fakecass.Cluster
-	Proxy   *proxy.Proxy
-	Addr    string
-	cancel  context.CancelFunc
-	ln      net.Listener
-	served  chan struct{}
-	shared  bool
-	clients []*rawcli.Client
+	Cluster   *fakecass.Cluster
+	Proxy     *proxy.Proxy
+	Addr      string
+	cancel    context.CancelFunc
+	ln        net.Listener
+	served    chan struct{}
+	shared    bool
+	clients   []*rawcli.Client
+	clientsMu sync.Mutex
 }
 
 func (o *envOpts) defaults() {
@@ -176,7 +177,10 @@ func contains(xs []int, x int) bool {
 }
 
 func (e *env) Close() {
-	for _, c := range e.clients {
+	e.clientsMu.Lock()
+	cs := append([]*rawcli.Client(nil), e.clients...)
+	e.clientsMu.Unlock()
+	for _, c := range cs {
 		c.Close()
 	}
 	// Stop accepting first and let Serve finish the connection it may be setting up: Proxy.Close()
@@ -200,7 +204,7 @@ func (e *env) client(v primitive.ProtocolVersion, comp string) (*rawcli.Client, 
 	if err != nil {
 		return nil, err
 	}
-	e.clients = append(e.clients, c)
+	e.addClient(c)
 	if err := c.Startup(v, comp, posWait); err != nil {
 		return nil, err
 	}
@@ -210,9 +214,15 @@ func (e *env) client(v primitive.ProtocolVersion, comp string) (*rawcli.Client, 
 func (e *env) rawClient() (*rawcli.Client, error) {
 	c, err := rawcli.Dial(e.Addr)
 	if err == nil {
-		e.clients = append(e.clients, c)
+		e.addClient(c)
 	}
 	return c, err
+}
+
+func (e *env) addClient(c *rawcli.Client) {
+	e.clientsMu.Lock()
+	e.clients = append(e.clients, c)
+	e.clientsMu.Unlock()
 }
 
 // posWait is the bound for "a reply is owed": four orders of magnitude above the
